@@ -65,7 +65,8 @@ def einx_call(call, args, sizes, graph=False, backend=None):
     import einx
     kw = dict(sizes); kw.update(call.kw)
     if graph: kw["graph"] = True
-    if backend: kw["backend"] = backend
+    kw["backend"] = backend or "numpy"      # with factories only there is no tensor to infer the backend from
+    args = [np.array(a, copy=True) if isinstance(a, np.ndarray) else a for a in args]      # *_at update their target in place
     return getattr(einx, call.op)(call.desc, *args, **kw)
 
 
@@ -202,6 +203,16 @@ def run_histories(call, seed, depth):
     npos = len(args)
     sub = (npos - 1,)
     sig = SIGNATURES[3]
+    # the description must stay determined once the argument is a factory (an anonymous ellipsis cannot be given a size): otherwise the call is
+    # legitimately rejected and there is no history to explore; the factory must then never be invoked
+    clear_caches()
+    log0 = []
+    try:
+        einx_call(call, [make_factory(sig, "correct", a, log0, i) if i in sub else a.copy() for i, a in enumerate(args)], sizes, graph=True)
+    except einx.errors.EinxError:
+        hist["history-call-not-determined"] += 1
+        if log0: bad.append(_v(call, sub, sig, "rejected", "factory invoked although the call was rejected"))
+        return hist, bad
     for h in [h for d in range(1, depth + 1) for h in itertools.product(STEPS, repeat=d)]:
         clear_caches()
         log = []
@@ -233,8 +244,14 @@ def run_histories(call, seed, depth):
                     if not nonf: continue
                     bad_args[nonf[0]] = np.zeros(args[nonf[0]].shape + (2,), dtype=args[nonf[0]].dtype)
                     try:
+                        einx_call(call, bad_args, sizes, graph=True)
+                        continue       # the corrupted call still compiles (e.g. an ellipsis absorbs the extra dimension): it is not a rejected call
+                    except Exception:
+                        pass
+                    if log: pass
+                    try:
                         einx_call(call, bad_args, sizes)
-                        continue       # not rejected: nothing to check
+                        bad.append(_v(call, sub, sig, "history " + ">".join(h[:n + 1]), "a call whose compilation is rejected returned a value")); break
                     except Exception:
                         exp_calls = 0
             except Exception as e:  # noqa
